@@ -546,9 +546,6 @@ func c31Gen(r *vu.RNG, n int, emit func(string)) {
 	if vu.Thorough() {
 		for a := uint64(0); a <= 400; a += 1 {
 			for b := a; b <= 400; b++ {
-				if a > 3 && a%128 > 1 && a%128 != 127 && (b-a)%7 != 0 {
-					continue // thinned away from the boundaries
-				}
 				emit(fmt.Sprintf("plan %x %x", a, b))
 			}
 		}
